@@ -1,3 +1,4 @@
+#![feature(allocator_api)]
 // ---------------------------------------------------------------------------------------------
 // PRELUDE (hand-written, never derived from the code): shim types + the ghost protocol of the
 // queue core.  Everything marked external_body here is an ASSUMPTION and is listed in evidence.
